@@ -31,6 +31,13 @@ def oz(v):
     return [0] if v is None else [1, v]
 
 
+MAX_EVENTS = 6000        # a correct emit is finite; a run past this many events is a runaway loop
+
+
+class Runaway(BaseException):
+    """the implementation keeps calling handlers without end (not an Exception: nothing swallows it)"""
+
+
 class W:
     """a weakly referencable argument"""
 
@@ -69,6 +76,8 @@ class CB:
                 flat += [0, a]
             else:
                 flat += [2, 0]
+        if len(run.trace) > MAX_EVENTS:
+            raise Runaway()
         run.trace.append([7, self.serial, self.cb, len(args)] + flat)
         ret, ops = run.case["cbs"][self.cb]
         for op in ops:
@@ -172,6 +181,9 @@ class Run:
                 self.depth -= 1
                 t.append([6, errcode(e)])
                 raise
+            except Runaway:
+                t.append([6, -8])
+                raise
             self.depth -= 1
             t.append([6, 1 if r is True else 0 if r is False else 3 if r else 2])
         elif k == "kill":
@@ -193,6 +205,9 @@ class Run:
                 self.do_op(op)
             except core.MachineryError:
                 raise
+            except Runaway:
+                self.trace.append([12])
+                break
             except Exception:
                 pass        # logged where it happened; leaving this block clears the traceback
 
@@ -559,6 +574,8 @@ class C14(core.Check):
                             lose(h)
             elif t == 11:
                 note("gc_collect")
+            elif t == 12:
+                msgs.append(f"an emit did not finish within {MAX_EVENTS} events: handlers are called again and again")
         # ---- heap clause (oracle-only) ----
         heap = res.get("heap", {})
         for o in sorted(killed):
@@ -594,6 +611,7 @@ class C14(core.Check):
                 dist[k] = dist.get(k, 0) + 1
         k = "kind:" + case.get("kind", "?")
         dist[k] = dist.get(k, 0) + 1
+        dist["max_trace_len"] = max(dist.get("max_trace_len", 0), len(res.get("trace", [])))
 
     # ---------- generators ----------
     @staticmethod
